@@ -210,6 +210,11 @@ pub struct LabConfig {
     /// `PoolableConnection::is_open` of the harness connection means just "not closed" (as the trait documents)
     /// instead of mirroring `HttpConnection::is_open` (= ready for the next request)
     pub open_ignores_busy: bool,
+    /// the caller keeps the future of a resolved request alive (pinned on its stack, a struct field) instead of
+    /// dropping it at once; it is dropped when the scenario ends
+    pub keep_completed_futures: bool,
+    /// every instance of the protocol service answers `Pending` (with a wake-up) this many times before it is ready
+    pub protocol_pending_polls: u8,
 }
 
 pub struct World {
@@ -515,9 +520,21 @@ impl Drop for DialFuture {
 // Protocol
 // ---------------------------------------------------------------------------------------------
 
-#[derive(Clone)]
 pub struct LabProtocol {
     pub world: Shared,
+    pending_left: Option<u8>,
+}
+
+impl LabProtocol {
+    pub fn new(world: Shared) -> Self {
+        LabProtocol { world, pending_left: None }
+    }
+}
+
+impl Clone for LabProtocol {
+    fn clone(&self) -> Self {
+        LabProtocol { world: self.world.clone(), pending_left: None }
+    }
 }
 
 impl tower::Service<ProtocolRequest<LabStream, Body>> for LabProtocol {
@@ -525,11 +542,19 @@ impl tower::Service<ProtocolRequest<LabStream, Body>> for LabProtocol {
     type Error = ConnectionError;
     type Future = HsFuture;
 
-    fn poll_ready(&mut self, _cx: &mut Context<'_>) -> Poll<Result<(), Self::Error>> {
+    fn poll_ready(&mut self, cx: &mut Context<'_>) -> Poll<Result<(), Self::Error>> {
+        let left = self.pending_left.get_or_insert_with(|| lock(&self.world).cfg.protocol_pending_polls);
+        if *left > 0 {
+            *left -= 1;
+            lock(&self.world).count("protocol_not_ready_polls");
+            cx.waker().wake_by_ref();
+            return Poll::Pending;
+        }
         Poll::Ready(Ok(()))
     }
 
     fn call(&mut self, req: ProtocolRequest<LabStream, Body>) -> Self::Future {
+        self.pending_left = None;
         let mut w = lock(&self.world);
         let dial = req.transport.dial;
         let origin = w.dials[dial].origin.clone();
